@@ -15,6 +15,7 @@ import CocaVerif.Drv.Deps
 import CocaVerif.Drv.Cloc
 import CocaVerif.Drv.Api
 import CocaVerif.Drv.JavaFull
+import CocaVerif.Drv.Refactor
 open Lean
 
 partial def loop {σ : Type} (h : IO.FS.Stream) (out : IO.FS.Stream) (step : σ → Json → σ × Json) (st : σ) : IO Unit := do
@@ -47,4 +48,5 @@ def main (args : List String) : IO UInt32 := do
   | ["cloc"] => loop stdin stdout CocaVerif.Drv.Cloc.step (); return 0
   | ["api"] => loop stdin stdout CocaVerif.Drv.Api.step {}; return 0
   | ["javafull"] => loop stdin stdout CocaVerif.Drv.JavaFull.step {}; return 0
+  | ["refactor"] => loop stdin stdout CocaVerif.Drv.Refactor.step (); return 0
   | _ => IO.eprintln "usage: driver <family>"; return 2
